@@ -186,6 +186,7 @@ pub fn run_case(c: &Case) -> (String, String) {
     let mut any_finished = false;
     let mut bottom_used = false;
     let mut retargeted = false;
+    let mut aligned = false;   // set_alignment was used: frames may contain blank rows (bottom alignment)
     let mut log_unjudged = false;
     let mut lingering: Vec<String> = Vec::new();      // rows of bars removed since the last draw (remove does not redraw by itself)
     let mut any_remove = false;
@@ -227,7 +228,7 @@ pub fn run_case(c: &Case) -> (String, String) {
                 // know: what is printed next continues that row. Nothing printed after such a retarget is judged by the log oracle.
                 let (_, col) = rec.cursor(); if col != 0 && col != c.w { log_unjudged = true; }
                 mp.set_draw_target(if c.hz == 0 { ProgressDrawTarget::term_like(Box::new(rec.clone())) } else { ProgressDrawTarget::term_like_with_hz(Box::new(rec.clone()), c.hz) }); }
-            MOp::Align(b) => { bottom_used = true; mp.set_alignment(if *b { MultiProgressAlignment::Bottom } else { MultiProgressAlignment::Top }) }
+            MOp::Align(b) => { bottom_used = true; aligned = true; mp.set_alignment(if *b { MultiProgressAlignment::Bottom } else { MultiProgressAlignment::Top }) }
             MOp::Bar(k, bop) => {
                 let info = &mut bars[*k];
                 if let Some(pb) = info.pb.as_ref() {
@@ -304,13 +305,15 @@ pub fn run_case(c: &Case) -> (String, String) {
             }
         }
     }
-    if verdict == "ok" && !c.small && !bottom_used && !any_remove && !order_ambiguous && !cleared_since_draw && !disturbed_after_finish && bars.iter().all(|b| b.pb.is_none()) && !bars.is_empty() {
+    // (with bottom alignment blank rows may separate the renderings: the comparison ignores blank rows then)
+    if verdict == "ok" && !c.small && (!bottom_used || (aligned && !retargeted)) && !any_remove && !order_ambiguous && !cleared_since_draw && !disturbed_after_finish && bars.iter().all(|b| b.pb.is_none()) && !bars.is_empty() {
         let rows = rec.rows();
         let mut at = 0usize;
         for l in &logs { let chunks = wrap(l, w); if let Some(i) = (at..rows.len()).find(|&i| i + chunks.len() <= rows.len() && (0..chunks.len()).all(|j| rows[i + j] == chunks[j])) { at = i + chunks.len(); } }
         let mut exp: Vec<String> = order.iter().filter_map(|&k| bars[k].finished_visible_render.as_ref()).flat_map(|r| r.iter().flat_map(|l| wrap(l, w))).collect();
         while exp.last().map_or(false, |r| r.is_empty()) { exp.pop(); }
-        let region: Vec<String> = rows[at.min(rows.len())..].to_vec();
+        let mut region: Vec<String> = rows[at.min(rows.len())..].to_vec();
+        if aligned { region.retain(|r| !r.is_empty()); exp.retain(|r| !r.is_empty()); }
         if region != exp { verdict = format!("FAIL C04 final-renderings got={} exp={}", show_rows(&region), show_rows(&exp)); }
     }
     if verdict == "ok" && !lingering.is_empty() && rec.flushes() > 0 && !retargeted {
